@@ -12,11 +12,12 @@ from typing import Any, Dict
 from harness.extract import action_templates as x_templ
 from harness.extract import request_core as x_core
 from harness.extract import request_schema as x_schema
+from harness.extract import request_validators as x_valid
 from harness.lib import scen
 from harness.lib.core import VERIF, Ctx, lean_lock
 from harness.rigs import request_schema as rig
 
-MODULES = ["PrimaiteModel.Props.C05Schema"]
+MODULES = ["PrimaiteModel.Props.C05Schema", "PrimaiteModel.Props.C05Guards", "PrimaiteModel.Props.C05Inst"]
 EXE = "drv_c05x"
 QUICK_SCEN = ["data_manipulation", "basic_firewall", "basic_switched_network", "multi_lan_internet_network_example"]
 SKIP = {"bad_primaite_session", "no_nodes_links_agents_network"}
@@ -67,6 +68,7 @@ def extra(ctx: Ctx):
         ctx.extract("RequestCore", x_core.emit)          # Props/C05Schema imports Props/C05, which imports Gen/RequestCore
         ok1 = ctx.extract(x_schema.GEN_NAME, x_schema.emit)
         ok2 = ctx.extract(x_templ.GEN_NAME, x_templ.emit)
+        ctx.extract(x_valid.GEN_NAME, x_valid.emit)       # E6: every validator __call__ translated (Props/C05Guards)
         proved = ctx.prove(MODULES, exes=[EXE], leanchecker=ctx.thorough)
     ctx.cov["rule_schema"] = ("R-schema: every manager of the live request tree of shipped scenarios (initial and perturbed states) compared "
                               "with the regenerated schema; every component of the object graph compared with the dynamic levels; generated "
@@ -93,6 +95,15 @@ def replay(rec: dict) -> bool:
     for r in rp.get("setup", []):
         game.simulation.apply_request(list(r))
     rig.apply_ops(game.simulation, rp.get("setup_ops", []))
+    if rp.get("mode") == "veval":   # R-guards: every live validator of the recorded class against its translated predicate
+        from harness.lib.core import Rng, run_driver
+        from harness.rigs import request_guards as rguards
+        ctx = Ctx("C05x", "quick", 1)
+        lines, pending = [], []
+        rguards.collect(ctx, game.simulation, Rng(1), "replay", lines, pending, cap_per_class=10 ** 6)
+        keep = [(l, p) for l, p in zip(lines, pending) if p.get("cls") == rp["validator"]]
+        out = run_driver(EXE, [l for l, _ in keep])
+        return not rguards.judge(ctx, [p for _, p in keep], out)
     reg = registry()
     req = reg[rp["action"]].form_request(reg[rp["action"]].ConfigSchema(type=rp["action"], **rp["opts"]))
     reach, _ = rig.live_walk(game.simulation._request_manager, req)
